@@ -222,9 +222,13 @@ class IncrementalExecutor(Executor[DeliveryGroupMap]):
         awaitables: list[Any] = []
         is_awaitable = self.is_awaitable
         for task in self.tasks:
+            pending_future = task.computation.pending_future
             abort_result = task.computation.abort(reason)
             if is_awaitable(abort_result):
                 awaitables.append(abort_result)
+            if pending_future is not None:
+                # wait until the cancelled future has settled as well
+                awaitables.append(pending_future)
         for stream in self.streams:
             abort_result = stream.queue.abort(reason)
             if is_awaitable(abort_result):
@@ -536,7 +540,12 @@ class IncrementalExecutor(Executor[DeliveryGroupMap]):
         filtered_tasks: list[ExecutionGroup] = []
         for task in tasks:
             if has_nulled_position(task.path):
+                # the cancelled future of an early executed task is tracked
+                # until it has settled, so that the work-finished hook waits
+                pending_future = task.computation.pending_future
                 self.settle_abort_result(task.computation.abort(cancellation_reason))
+                if pending_future is not None:
+                    self.settle_in_background([pending_future])
             else:
                 filtered_tasks.append(task)
 
